@@ -153,3 +153,77 @@ def rule_observers_pure(ctx, modnames, label, properties=True, extra_names=(), f
     entries = observer_entries(ctx, modnames, properties, extra_names)
     ctx.require(len(entries) >= floor, "F1-obs", label, f"only {len(entries)} observer methods found")
     rule_F1(ctx, entries, label, rule="F1-obs")
+
+
+def _parents(n):
+    p = getattr(n, "_parent", None)
+    while p is not None:
+        yield p
+        p = getattr(p, "_parent", None)
+
+
+def rule_shallow_copy_shares_lists(ctx):
+    """Shared mutable state through copy(): derived from three facts of the source —
+    (1) a property setter appends `self` to a list attribute of the object it is given (`note.slur_starts.append(self)`),
+    (2) a class initialises that attribute to a fresh list per instance, i.e. the list is per-object state,
+    (3) a function shallow-copies objects that may be of that class and lets the copies' references be re-targeted through
+        those setters (replace_refs) without first giving each copy its own lists."""
+    rule = "SHARE-copy"
+    ctx.rule(rule, "a shallow copy of a score object does not share per-object reference lists with its original while setters can "
+                   "still append to them: after `x = copy(o)` every list attribute that some property setter appends to "
+                   "(`<obj>.<attr>.append(self)`) is re-bound on the copy before the copy's references are re-targeted")
+    S = "partitura.score"
+    shared = {}
+    for f in ctx.prog.functions_in(S):
+        if not f.is_setter or len(f.params) < 2:
+            continue
+        for c in own_nodes(f.node):
+            if isinstance(c, ast.Call) and isinstance(c.func, ast.Attribute) and c.func.attr == "append" and len(c.args) == 1 \
+                    and isinstance(c.args[0], ast.Name) and c.args[0].id == f.params[0] and isinstance(c.func.value, ast.Attribute) \
+                    and isinstance(c.func.value.value, ast.Name) and c.func.value.value.id == f.params[1]:
+                shared.setdefault(c.func.value.attr, []).append(f.qname.split(":")[1])
+    ctx.require(len(shared) >= 2, rule, S, f"setter-appended list attributes not found ({sorted(shared)})")
+    holders = {}
+    for ci in ctx.prog.classes.values():
+        if not ci.qname.startswith(S + ":"):
+            continue
+        init = ci.methods.get("__init__")
+        if init is None:
+            continue
+        for s in own_nodes(init.node):
+            if isinstance(s, ast.Assign) and isinstance(s.targets[0], ast.Attribute) and s.targets[0].attr in shared and isinstance(s.value, ast.List) and not s.value.elts:
+                holders.setdefault(ci.name, set()).add(s.targets[0].attr)
+    ctx.require(holders, rule, S, "no class initialises the shared list attributes")
+    ctx.extra["SHARE_copy"] = {"appended_by_setters": {k: sorted(v) for k, v in shared.items()}, "held_by": {k: sorted(v) for k, v in holders.items()}}
+    f = ctx.prog.func(f"{S}:ScoreVariant.create_variant_part", rule)
+    ctx.touch(f)
+    copies = [s for s in own_nodes(f.node) if isinstance(s, ast.Assign) and isinstance(s.targets[0], ast.Name) and isinstance(s.value, ast.Call)
+              and norm(s.value.func) in ("copy", "copy.copy")]
+    ctx.require(copies, rule, f.qname, "no copy() found")
+    retarget = any(isinstance(c, ast.Call) and isinstance(c.func, ast.Attribute) and c.func.attr == "replace_refs" for c in own_nodes(f.node))
+    n = 0
+    for s in copies:
+        name = s.targets[0].id
+        # the copied objects come from a registry slot of one class that holds none of the lists (`..starting_objects[Fermata]`)
+        src = s.value.args[0] if s.value.args else None
+        loop = next((p for p in [getattr(s, "_parent", None)] + list(_parents(s)) if isinstance(p, ast.For) and isinstance(src, ast.Name)
+                     and any(isinstance(t, ast.Name) and t.id == src.id for t in ast.walk(p.target))), None)
+        if loop is not None and isinstance(loop.iter, ast.Subscript) and isinstance(loop.iter.slice, ast.Name):
+            r = ctx.prog.resolve_name(f.module, loop.iter.slice.id)
+            if r and r[0] == "class" and not any(h in [c.name for c in r[1].mro] for h in holders) and \
+                    not any(h in [c.name for sc in r[1].all_subclasses() for c in sc.mro] for h in holders):
+                ctx.ok(rule, f"`{norm(s)[:30]}` copies {r[1].name} objects only")
+                continue
+        n += 1
+        rebinds = {t.attr for a in own_nodes(f.node) if isinstance(a, ast.Assign) for t in a.targets if isinstance(t, ast.Attribute)
+                   and isinstance(t.value, ast.Name) and t.value.id == name}
+        generic_unshare = any(isinstance(c, ast.Call) and norm(c.func) == "setattr" and c.args and isinstance(c.args[0], ast.Name) and c.args[0].id == name
+                              for c in own_nodes(f.node))
+        missing = sorted(a for a in shared if a not in rebinds)
+        registered_only = not retarget
+        ctx.check(generic_unshare or not missing or registered_only, rule, f"`{norm(s)[:30]}` un-shares its reference lists", func=f, node=s,
+                  construct=f"shallow-copy-shares-lists:{','.join(missing)[:60]}",
+                  msg=f"`{norm(s)}` is a shallow copy: for a {'/'.join(sorted(holders))} it shares {missing} with the original. When the copies' references are re-targeted "
+                      f"(replace_refs -> {sorted({x for v in shared.values() for x in v})[:2]}...), the setter appends the *new* slur/tuplet to that shared list: the original "
+                      f"notes of the caller's part grow an extra entry per unfolding and the copies end up with wrong lists")
+    ctx.floor(rule, "shallow copies in create_variant_part", n, 1)
